@@ -509,7 +509,7 @@ impl WhenCalledBuilder<'_> {
     /// ```
     pub fn will_return_boolean(self, value: bool) {
         // Ensure the target function returns a bool
-        if !self.expected_signature.trim().ends_with("-> bool") {
+        if !signature_returns_bool(self.expected_signature) {
             panic!(
                 "Signature mismatch: will_return_boolean requires a function returning bool but got {}",
                 self.expected_signature
@@ -519,6 +519,29 @@ impl WhenCalledBuilder<'_> {
         let guard = self.when.will_return_boolean_guard(value);
         self.lib.guards.push(guard);
     }
+}
+
+/// Returns true if the function-pointer type name `signature` has `bool` as its return type.
+///
+/// The return type is what follows the parenthesis closing the *top-level* parameter list, so a
+/// function returning e.g. `fn() -> bool` (whose name merely ends in `-> bool`) does not qualify.
+fn signature_returns_bool(signature: &str) -> bool {
+    let sig = signature.trim().as_bytes();
+    let mut depth = 0usize;
+    for (i, &c) in sig.iter().enumerate() {
+        if c == b'(' {
+            depth += 1;
+        } else if c == b')' {
+            if depth == 0 {
+                return false;
+            }
+            depth -= 1;
+            if depth == 0 {
+                return &sig[i + 1..] == b" -> bool";
+            }
+        }
+    }
+    false
 }
 
 pub struct WhenCalledBuilderAsync<'a> {
